@@ -339,11 +339,11 @@ Close(s) ==
 
 ---------------------------------------------------------------------------
 (* additions: files are written, then a forced resync of the destination   *)
-DoAppend(s, m, F) ==
+DoAppendId(s, m, F, newId) ==
     /\ "Append" \in Acts /\ CanRun(s) /\ nextId <= MaxId /\ Clean(m)
     /\ LET a0 == Flush(Acc0, s, "APPEND", FALSE)
            k == FreeKey(files[m])
-           fs2 == files[m] \cup {<<k, nextId>>}
+           fs2 == files[m] \cup {<<k, newId>>}
            fl == F \cup {"Recent"} \cup (IF "Seen" \in F THEN {} ELSE {"unseen"})
            fq2 == AsFile(msgs[m]) \cup Foreign(fseq[m], msgs[m]) \cup {<<k, f>> : f \in fl}
            r == ResyncRes(m, msgs[m], fs2, fq2, next[m], [ss |-> a0.ss, out |-> NoOut])
@@ -355,7 +355,7 @@ DoAppend(s, m, F) ==
        /\ fseq' = [fseq EXCEPT ![m] = r.fq]
        /\ next' = [next EXCEPT ![m] = r.nx]
        /\ Finish(a0, a2, [Ev("Append", s) EXCEPT !.mbox = m, !.flags = SetToSeq(F \ {"Recent"}),
-                             !.msgid = nextId,
+                             !.msgid = newId,
                              !.code = [name |-> "APPENDUID", vv |-> Vv(m), src |-> <<>>,
                                        dst |-> <<uidNew>>]])
     /\ nextId' = nextId + 1
@@ -363,16 +363,20 @@ DoAppend(s, m, F) ==
     /\ force' = [force EXCEPT ![m] = FALSE]
     /\ UNCHANGED <<agent>>
 
+DoAppend(s, m, F) == DoAppendId(s, m, F, nextId)
+
 CopyMove(s, u, set, dst, move) ==
     /\ (IF move THEN "Move" ELSE "Copy") \in Acts /\ CanRun(s) /\ Selected(s)
-    /\ move => ~ss[s].ro
     /\ LET m == ss[s].sel
            a0 == Flush(Acc0, s, IF move THEN "MOVE" ELSE "COPY", u)
            ev0 == [Ev(IF move THEN "Move" ELSE "Copy", s) EXCEPT !.uid = u, !.set = set,
                       !.mbox = dst, !.src = m]
        IN
        /\ Clean(m) /\ Clean(dst) /\ m # dst
-       /\ IF ~u /\ ~ValidSeq(set, Len(msgs[m])) THEN
+       /\ IF move /\ ss[s].ro THEN          \* MOVE through an EXAMINE session: refused
+            /\ Finish(Acc0, Acc0, [ev0 EXCEPT !.status = "NO"])
+            /\ UNCHANGED <<msgs, files, fseq, next, dirty, force>>
+          ELSE IF ~u /\ ~ValidSeq(set, Len(msgs[m])) THEN
             /\ Finish(a0, [ss |-> a0.ss, out |-> NoOut], [ev0 EXCEPT !.status = "BAD"])
             /\ UNCHANGED <<msgs, files, fseq, next, dirty, force>>
           ELSE IF msgs[m] = <<>> THEN      \* UID form on an empty mailbox: nothing to do
